@@ -27,13 +27,19 @@ from harness.common import TranslateError, ast_digest, src_text
 # Abstract values of SM/AtomicExit.v.  The translator only transliterates; the symbolic execution (which operation
 # follows which result, what a `finally` does, whether an exception is swallowed) is done by `exit_tree` in the kernel.
 SLOTS = {'self.temp': 0, 'self._temp_name': 1, 'self.filename': 2}
-CLASS_ALL = {'BaseException', 'Exception'}
+CLASS_ALL = {'BaseException'}
+CLASS_EXC = {'Exception'}
 CLASS_OSERROR = {'OSError', 'IOError', 'EnvironmentError'}
 CLASS_NOENT = {'FileNotFoundError'}
-# classes that match neither the injected OSError(EIO), nor FileNotFoundError, nor an AttributeError / explicit raise
-CLASS_NEVER = {'FileExistsError', 'PermissionError', 'IsADirectoryError', 'NotADirectoryError', 'InterruptedError',
-               'BlockingIOError', 'TimeoutError', 'KeyError', 'IndexError', 'ValueError', 'TypeError', 'KeyboardInterrupt',
-               'StopIteration', 'UnicodeError', 'ZeroDivisionError'}
+# named subclasses of OSError other than FileNotFoundError: `KSub <index>` (SM/AtomicRetry.v specialises the program to
+# runs in which the refused operations raise one of them: run class `RSub <index>`)
+SUBCLASSES = ['PermissionError', 'FileExistsError', 'IsADirectoryError', 'NotADirectoryError', 'InterruptedError',
+              'BlockingIOError', 'TimeoutError', 'ConnectionError']
+KBD_INDEX = 1000        # `except KeyboardInterrupt`: KSub 1000 = kbd_index of SM/AtomicRetry.v (run class RKbd)
+# classes that match no refused operation of any run class, nor FileNotFoundError, nor an AttributeError / explicit raise
+CLASS_NEVER = {'KeyError', 'IndexError', 'ValueError', 'TypeError', 'StopIteration', 'UnicodeError', 'ZeroDivisionError',
+               'LookupError', 'ArithmeticError'}
+MAX_ROUNDS = 50         # `for _ in range(n)`: n is a literal; the kernel unrolls the loop
 
 
 # classes an explicit `raise` may name: none of them is (a base class of) anything in the handler tables above
@@ -49,7 +55,9 @@ def _key(node: ast.AST) -> str | None:
 
 
 class _ExitTr:
-    def __init__(self, fn: ast.FunctionDef) -> None:
+    def __init__(self, fn: ast.FunctionDef, time_aliases: frozenset[str] = frozenset({'time'})) -> None:
+        self.time_aliases = time_aliases
+        self.loop_depth = 0
         params = [a.arg for a in fn.args.args]
         if len(params) != 4 or fn.args.vararg or fn.args.kwarg or fn.args.kwonlyargs:
             raise TranslateError('AtomicWriter.__exit__: expected (self, exc_type, exc_value, tback)')
@@ -69,6 +77,8 @@ class _ExitTr:
         self.names = {v: k for k, v in self.slots.items()}
 
     def slot(self, key: str, create: bool, node: ast.AST) -> int:
+        if key in getattr(self, 'loop_vars', ()):
+            raise TranslateError(f'{self.where}: the loop variable `{key}` is used as a value (line {node.lineno})')
         if key not in self.slots:
             if not create:
                 raise TranslateError(f'{self.where}: `{key}` is read but never assigned before (line {node.lineno})')
@@ -165,6 +175,12 @@ class _ExitTr:
                 raise TranslateError(f'{self.where}: unsupported exception class `{ast.unparse(e)}`')
             if e.id in CLASS_ALL:
                 out.append('KAll')
+            elif e.id in CLASS_EXC:
+                out.append('KExc')
+            elif e.id in SUBCLASSES:
+                out.append(f'KSub {SUBCLASSES.index(e.id)}')
+            elif e.id == 'KeyboardInterrupt':
+                out.append(f'KSub {KBD_INDEX}')
             elif e.id in CLASS_OSERROR:
                 out.append('KOSError')
             elif e.id in CLASS_NOENT:
@@ -213,8 +229,36 @@ class _ExitTr:
             if isinstance(st.value, ast.Constant):
                 return 'SSkip'
             if isinstance(st.value, ast.Call):
-                return self.call(st.value)
+                c = st.value
+                # time.sleep(<number>): no file-system effect (between two attempts of a retry loop)
+                if isinstance(c.func, ast.Attribute) and c.func.attr == 'sleep' and isinstance(c.func.value, ast.Name) \
+                        and c.func.value.id in self.time_aliases and len(c.args) == 1 and not c.keywords \
+                        and isinstance(c.args[0], ast.Constant) and isinstance(c.args[0].value, (int, float)) \
+                        and not isinstance(c.args[0].value, bool):
+                    return 'SSkip'
+                return self.call(c)
             raise TranslateError(f'{self.where}: unsupported expression statement (line {st.lineno})')
+        if isinstance(st, ast.For):
+            # for <name> in range(<literal n>): body [else: orelse] — the loop variable holds an int (outside the
+            # abstract values): it gets no slot, so reading it anywhere fails closed ("read but never assigned")
+            it = st.iter
+            if not (isinstance(st.target, ast.Name) and isinstance(it, ast.Call) and isinstance(it.func, ast.Name)
+                    and it.func.id == 'range' and len(it.args) == 1 and not it.keywords
+                    and isinstance(it.args[0], ast.Constant) and isinstance(it.args[0].value, int)
+                    and not isinstance(it.args[0].value, bool) and 0 <= it.args[0].value <= MAX_ROUNDS):
+                raise TranslateError(f'{self.where}: unsupported loop `for {ast.unparse(st.target)} in '
+                                     f'{ast.unparse(st.iter)}` (line {st.lineno}): only `for <name> in range(<literal>)`')
+            if st.target.id in self.slots:
+                raise TranslateError(f'{self.where}: the loop variable `{st.target.id}` is also used as a value')
+            self.loop_vars = getattr(self, 'loop_vars', set()) | {st.target.id}
+            self.loop_depth += 1
+            body = self.block(st.body)
+            self.loop_depth -= 1
+            return f'(SFor {it.args[0].value} {body} {self.block(st.orelse)})'
+        if isinstance(st, (ast.Break, ast.Continue)):
+            if self.loop_depth == 0:
+                raise TranslateError(f'{self.where}: break/continue outside a loop (line {st.lineno})')
+            return 'SBreak' if isinstance(st, ast.Break) else 'SContinue'
         if isinstance(st, ast.Assign):
             if len(st.targets) != 1:
                 raise TranslateError(f'{self.where}: chained assignment (line {st.lineno})')
@@ -273,8 +317,9 @@ def _exit_prog(fn: ast.FunctionDef) -> tuple[str, dict]:
     return prog, {str(k): v for k, v in sorted(tr.names.items())}
 
 
-def _exit_prog_attrs(fn: ast.FunctionDef) -> tuple[str, dict, dict[str, int]]:
-    tr = _ExitTr(fn)
+def _exit_prog_attrs(fn: ast.FunctionDef, time_aliases: frozenset[str] = frozenset({'time'})
+                     ) -> tuple[str, dict, dict[str, int]]:
+    tr = _ExitTr(fn, time_aliases)
     prog = tr.block(fn.body)
     return prog, {str(k): v for k, v in sorted(tr.names.items())}, dict(tr.attr_slots)
 
@@ -1015,7 +1060,10 @@ def translate() -> tuple[str, dict]:
                                      f'(line {c.lineno}): its body is not analysed')
     # ... and single-assignment locals of make_tempfile by their defining expressions
     fns['make_tempfile'] = inline_locals(fns['make_tempfile'])
-    prog, slot_names, attr_slots = _exit_prog_attrs(fns['__exit__'])
+    # names the module `time` is imported under (time.sleep between two attempts of a retry loop is no operation)
+    time_aliases = frozenset(a.asname or a.name for n in tree.body if isinstance(n, ast.Import) for a in n.names
+                             if a.name == 'time')
+    prog, slot_names, attr_slots = _exit_prog_attrs(fns['__exit__'], time_aliases)
     tf = _tempfile_facts(fns['make_tempfile'])
     # __enter__ must create the temp file and hand out the temp handle
     if not _enter_ok(fns['__enter__']):
@@ -1028,7 +1076,7 @@ def translate() -> tuple[str, dict]:
     writes_ok = all(w[2] in ('handle', 'bytesio', 'deferred') for w in bsp['writes'])
     lines = [
         '(* GENERATED by translate/c12_atomic.py from src/srctools/__init__.py (AtomicWriter) and bsp.py. Do not edit. *)',
-        'From Coq Require Import List String.', 'From SV Require Import SM.AtomicWriter SM.AtomicExit SM.AtomicReuse.', 'Import ListNotations.',
+        'From Coq Require Import List String.', 'From SV Require Import SM.AtomicWriter SM.AtomicExit SM.AtomicReuse SM.AtomicRetry.', 'Import ListNotations.',
         'Open Scope string_scope.',
         '(* AtomicWriter.__exit__, statement by statement (slots: ' + ', '.join(f'{k}={v}' for k, v in slot_names.items()) + ') *)',
         f'Definition aw_exit_prog : xstmt :=\n  {prog}.',
@@ -1044,6 +1092,9 @@ def translate() -> tuple[str, dict]:
         f'     o_const := [{"; ".join(map(str, obj["const"]))}] |}}.',
         '(* the exit protocol of the first use of a fresh object *)',
         'Definition aw_proto : xproto := obj_proto aw_obj.',
+        '(* named subclasses of OSError a handler may name (KSub i / run class RSub i): ' + ', '.join(
+            f'{i}={n}' for i, n in enumerate(SUBCLASSES)) + ' *)',
+        f'Definition aw_nclasses : nat := {len(SUBCLASSES)}.',
         '(* the temp-name loop: first index, unbounded iterator (itertools.count), name template tmp_<i>, the',
         '   FileExistsError handler only passes, the loop is left only by the break after a successful open, the',
         '   destination itself is never used as its own temp file *)',
@@ -1070,7 +1121,7 @@ def translate() -> tuple[str, dict]:
         '',
     ]
     side = dict(exit_prog=prog, exit_slots=slot_names, tempfile=tf, bsp={k: v for k, v in bsp.items()},
-                digests=raw_digests, writes_ok=writes_ok, obj=obj)
+                digests=raw_digests, writes_ok=writes_ok, obj=obj, subclasses=list(SUBCLASSES))
     return '\n'.join(lines), side
 
 
